@@ -75,9 +75,11 @@ def run(ctx):
     for threads, ops, cases in ((2, 5, 40), (3, 4, 40)) + (((4, 4, 60), (3, 6, 60)) if thorough else ()):
         cp = os.path.join(ctx.work, "conc_%d_%d.ndjson" % (threads, ops))
         vlib.vh(["c29", "conc", "--seed", ctx.seed + threads, "--cases", cases, "--threads", threads, "--ops", ops,
-                 "--out", cp])
+                 "--stress", (150 if thorough else 40) if threads == 2 else 0, "--out", cp])
         vlib.validate_cases(ctx, "conc", "LruLinTrace", cp, "concurrent")
         cc = vlib.split_cases(vlib.read_ndjson(cp))
+        ctx.extra["unlogged_stress_states_observed"] = ctx.extra.get("unlogged_stress_states_observed", 0) + sum(
+            1 for c in cc for e in c if e["ev"] == "stress")
         for c in cc:
             ctx.evaluations += 1
             # non-trivial: two calls actually overlapped in real time
